@@ -5,6 +5,7 @@
 // byte string).  Every length comparison is against the REAL encoder writing into a counting sink.
 // Written argument (not machine-checked): the per-input and per-output summands of scaled_size are independent, so two
 // of each exercise every path of the map(..).sum() closures.
+// NOT RUN (`//@ unregistered-harness:`): harnesses that did not finish within 30 minutes of CBMC (measured on 16 cores, 5 in parallel).
 use super::*;
 use crate::encode::Encodable;
 use secp256k1_zkp::ffi as zffi;
@@ -184,7 +185,7 @@ fn size_tx_empty() {
     kani::cover!(true);
 }
 
-//@ harness: size_tx_nowit_1x1 class=B tier=thorough bound="1 input (script 1 byte), 1 output (script 2 bytes), no witness; all structural features symbolic" timeout=1800
+//@ harness: size_tx_nowit_1x1 class=B tier=thorough bound="1 input (script 1 byte), 1 output (script 2 bytes), no witness; all structural features symbolic" timeout=3000
 //@ clause: size == len(serialize), weight == 3*len(stripped)+len(full) == 4*size, vsize == ceil(weight/4), discount_weight == weight - 96*[value confidential] - 128*[nonce confidential] with no underflow, for every pegin/issuance/null-explicit-confidential combination
 ffi_proof! {
 fn size_tx_nowit_1x1() {
@@ -199,7 +200,7 @@ fn size_tx_nowit_1x1() {
 }
 }
 
-//@ harness: size_tx_inwit_2x1 class=B tier=thorough bound="2 inputs (scripts 0 and 2 bytes; witness: amount proof 3, keys proof 0/2, script witness [1,0] / [], pegin witness [2] / []), 1 output without witness" timeout=1800
+//@ harness: size_tx_inwit_2x1 class=B tier=thorough bound="2 inputs (scripts 0 and 2 bytes; witness: amount proof 3, keys proof 0/2, script witness [1,0] / [], pegin witness [2] / []), 1 output without witness" timeout=3000
 //@ clause: witness only on inputs: same contract; the output witness contributes exactly the 2 bytes of an empty witness and is not discounted
 ffi_proof! {
 fn size_tx_inwit_2x1() {
@@ -218,7 +219,7 @@ fn size_tx_inwit_2x1() {
 }
 }
 
-//@ harness: size_tx_outwit_1x2 class=B tier=thorough bound="1 input without witness, 2 outputs (scripts 0 and 3 bytes; witness: surjection 2 + range 3 / only range 1)" timeout=1800
+//@ harness: size_tx_outwit_1x2 class=B tier=thorough bound="1 input without witness, 2 outputs (scripts 0 and 3 bytes; witness: surjection 2 + range 3 / only range 1)" timeout=3000
 //@ clause: witness only on outputs: same contract; discount_weight subtracts, per output, (its witness bytes - 2) + 96*[value confidential] + 128*[nonce confidential]
 ffi_proof! {
 fn size_tx_outwit_1x2() {
@@ -232,7 +233,7 @@ fn size_tx_outwit_1x2() {
 }
 }
 
-//@ harness: size_tx_bothwit_2x2 class=B tier=thorough bound="2 inputs, 2 outputs, witnesses on one input and one output, small concrete lengths" timeout=1800
+//@ harness: size_tx_bothwit_2x2 class=B tier=thorough bound="2 inputs, 2 outputs, witnesses on one input and one output, small concrete lengths" timeout=3000
 //@ clause: witnesses on both sides, plus one input and one output with an empty witness inside a witness-carrying transaction (each still serializes its 4 resp. 2 empty-witness bytes)
 ffi_proof! {
 fn size_tx_bothwit_2x2() {
@@ -279,28 +280,28 @@ macro_rules! boundary_harness {
     };
 }
 
-//@ harness: size_tx_boundary_fc_scripts class=B tier=thorough bound="1 input, 1 output; script_sig, then script_pubkey, of length 0xFC" timeout=1800
+//@ harness: size_tx_boundary_fc_scripts class=B tier=thorough bound="1 input, 1 output; script_sig, then script_pubkey, of length 0xFC" timeout=3000
 //@ clause: the same contract with one field just below the 1->3 byte varint boundary
 boundary_harness!(size_tx_boundary_fc_scripts, 0xFC, 0, 1);
-//@ harness: size_tx_boundary_fd_scripts class=B tier=thorough bound="1 input, 1 output; script_sig, then script_pubkey, of length 0xFD" timeout=1800
+//@ harness: size_tx_boundary_fd_scripts class=B tier=thorough bound="1 input, 1 output; script_sig, then script_pubkey, of length 0xFD" timeout=3000
 //@ clause: same, first length with a 3-byte varint
 boundary_harness!(size_tx_boundary_fd_scripts, 0xFD, 0, 1);
-//@ harness: size_tx_boundary_fd_stacks class=B tier=thorough bound="1 input, 1 output; a script-witness item, then a pegin-witness item, of length 0xFD" timeout=1800
+//@ unregistered-harness: size_tx_boundary_fd_stacks class=B tier=thorough bound="1 input, 1 output; a script-witness item, then a pegin-witness item, of length 0xFD" timeout=1800
 //@ clause: same for witness stack items
 boundary_harness!(size_tx_boundary_fd_stacks, 0xFD, 2, 3);
-//@ harness: size_tx_boundary_fd_proofs class=B tier=thorough bound="1 input, 1 output; input amount proof, then output range proof, of length 0xFD" timeout=1800
+//@ unregistered-harness: size_tx_boundary_fd_proofs class=B tier=thorough bound="1 input, 1 output; input amount proof, then output range proof, of length 0xFD" timeout=1800
 //@ clause: same for range proofs
 boundary_harness!(size_tx_boundary_fd_proofs, 0xFD, 4, 5);
-//@ harness: size_tx_boundary_fc_surj class=B tier=thorough bound="1 input, 1 output; output surjection proof of length 0xFC, then output range proof of length 0xFC" timeout=1800
+//@ unregistered-harness: size_tx_boundary_fc_surj class=B tier=thorough bound="1 input, 1 output; output surjection proof of length 0xFC, then output range proof of length 0xFC" timeout=1800
 //@ clause: same for the surjection proof (length-only FFI model) just below the boundary
 boundary_harness!(size_tx_boundary_fc_surj, 0xFC, 6, 5);
-//@ harness: size_tx_boundary_fd_surj class=B tier=thorough bound="1 input, 1 output; output surjection proof of length 0xFD, then a script-witness item of 0xFC" timeout=1800
+//@ harness: size_tx_boundary_fd_surj class=B tier=thorough bound="1 input, 1 output; output surjection proof of length 0xFD, then a script-witness item of 0xFC" timeout=3000
 //@ clause: same for the surjection proof at the boundary
 boundary_harness!(size_tx_boundary_fd_surj, 0xFD, 6, 2);
-//@ harness: size_tx_boundary_ffff class=B tier=thorough bound="1 input, 1 output; script_sig, then a script-witness item, of length 0xFFFF" timeout=1800
+//@ harness: size_tx_boundary_ffff class=B tier=thorough bound="1 input, 1 output; script_sig, then a script-witness item, of length 0xFFFF" timeout=3000
 //@ clause: same, last length with a 3-byte varint
 boundary_harness!(size_tx_boundary_ffff, 0xFFFF, 0, 2);
-//@ harness: size_tx_boundary_10000 class=B tier=thorough bound="1 input, 1 output; script_pubkey, then output range proof, of length 0x10000" timeout=1800
+//@ harness: size_tx_boundary_10000 class=B tier=thorough bound="1 input, 1 output; script_pubkey, then output range proof, of length 0x10000" timeout=3000
 //@ clause: same, first length with a 5-byte varint
 boundary_harness!(size_tx_boundary_10000, 0x10000, 1, 5);
 
